@@ -9,7 +9,7 @@ KNOWN_ID = 'bidi-interior-nsm'
 
 def correspondence(ctx):
     corr = Corr()
-    impl = rle_check(ctx, corr, ['bidi', 'hasrtl1', 'dir_1', 'dir_a1', 'dir_p1', 'dir_n1'], ['bidi', 'hasrtl1', 'dir_1', 'dir_a1', 'dir_p1'])
+    impl = rle_check(ctx, corr, ['bidi', 'hasrtl1', 'dir_1', 'dir_a1', 'dir_p1', 'dir_n1', 'dir_rE', 'dir_rcr', 'dir_lcl', 'dir_rcn'], ['bidi', 'hasrtl1', 'dir_1', 'dir_a1', 'dir_p1', 'dir_rE'])
     classes = sorted({v for _, _, v in impl['bidi']})
     corr.count('bidi_classes_in_table', len(classes))
     # several representatives per class, taken from the regenerated table
